@@ -145,3 +145,19 @@ CHECKS.update({
 })
 
 PENDING = {}
+
+# ---- growth after the first complete round: what each check additionally covers (appended to the texts above) ----
+ADDENDA = {
+ "C02": " Validator level: 24 hub configurations through VerifyClientCertificate. Concurrency: OcspFlight.tla (queries with a duration, two in flight at a responder URL shared by two issuers; RevokedRejects, StrictNeedsAnswer, OwnAnswerOnly) replayed with the responder as scheduler gate.",
+ "C03": " Histories: tours of the complete graphs of unset/prefer_ocsp/prefer_crl with a constant responder and with a responder that changes (Revocation.tla action Respond, variables resp/ocache, configurations ocsp=dyn|dyncache), the same iff at every handshake; with the cache on, the verdict of an implementation that asks the responder again (edge field alt) is accepted too.",
+ "C05": " Concurrency: OcspFlight.tla (Begin/Answer, two queries in flight, certificates with equal subject and serial under two issuers sharing one responder URL; OwnAnswerOnly, deviation Merge) replayed on real checkers with the responder decoding and parking every request until the specification's Answer step.",
+ "C12": " The transfer itself is a crash point (pc 'fetching': the origin sends half of the body and parks); whatever a crash image holds after Provision besides stores and that a process at rest never keeps counts as a leftover under any name. Thorough tier: SIGKILL of a child process at seeded random instants.",
+ "C15": " API level (Revocation.tla): a list that a refresh or background pass took in is in force, and a pass contacts the origin of every CRL the model says is known (the statement itself as predicate).",
+ "C16": " Restarts may change the policy options inside a family of configurations (what is on disk is judged by the new policy); under verify_log/none a pass fetches every CRL that was taken in again.",
+ "C17": " Encodings include DER free of line-feed bytes (the PEM detection is line oriented).",
+ "C18": " CrlStores.tla: two stores of one base path and two temporary stores with a life time of their own (staged, consumed by a replacement after other stores were replaced/reopened, or discarded); Isolation and StagedStable proved, its complete graph (400 states) replayed on both backends with main and temporary stores observed after every step.",
+}
+for _k, _v in ADDENDA.items():
+    if _k in CHECKS and not CHECKS[_k]["text"].endswith(_v):
+        CHECKS[_k]["text"] += _v
+CHECKS["C12"]["note"] = CHECKS["C12"]["note"].replace(" The random-instant SIGKILL of a child process is not built yet (listed in DESIGN.md as future work).", "")
